@@ -65,7 +65,7 @@ Fixpoint cap_loop (fuel : nat) (total len : Z) (cm : capmap) : parser capmap :=
   end.
 
 (* every iteration adds at least 2 to len, so total/2 + 2 iterations always suffice *)
-Definition cap_fuel (total : Z) : nat := Z.to_nat (total / 2 + 2).
+Definition cap_fuel (total : Z) : nat := Z.to_nat (Z.max total 0 / 2 + 2).
 
 Definition dec_capability : parser capability :=
   let* total := u16 in
